@@ -5,6 +5,7 @@ character-width function `cw`.
 -/
 import ClapProofs.Lemmas.Wrap
 import ClapProofs.Lemmas.WrapWidth
+import ClapProofs.Lemmas.WrapWidthW
 namespace Clap.C20
 open Clap TextWrap
 
@@ -349,5 +350,70 @@ theorem lineCost_plain (cw : Char → Nat) (line : Str) (hp : Plain cw line) : l
 example : (∀ line ∈ splitInclusive "ab 世\ncd".toList, lineCost (fun c => if c == '世' then 2 else 1) line ≤ 6) ∧
     wrap (fun c => if c == '世' then 2 else 1) "ab 世\ncd".toList 6 = "ab 世\ncd".toList := by decide
 example : wrap (fun c => if c == '世' then 2 else 1) "ab 世\ncd".toList 4 = "ab\n世\ncd".toList := by decide
+
+/-! #### 7. within the requested width, in display columns (wide and zero-width characters) -/
+
+theorem findWords_splain (cw : Char → Nat) (line : Str) (hp : SPlain cw line) : ∀ w ∈ findWords line, SPlain cw w := by
+  intro w hw c hc
+  apply hp c
+  rw [← findWords_flatten line]
+  exact List.mem_flatten.2 ⟨w, hw, hc⟩
+
+/-- **the width bound in display columns**: for one line of text with characters of ANY width (wide, zero-width,
+multi-byte) - no control characters, the space the only whitespace and one column wide - wrapping at ANY width yields
+lines each of which, trailing spaces aside, either fits the width in columns or is no wider than the hanging indent
+plus one word of the input. `wrap_line_width` is the instance where every character is one column and one byte. -/
+theorem wrap_line_width_cols (cw : Char → Nat) (hard : Nat) (line : Str) (hp : SPlain cw line) :
+    ∀ l ∈ linesOf ((LW.new hard).wrap cw (findWords line)).2.reverse,
+      lineTrimW cw l ≤ hard ∨ ∃ w ∈ findWords line, lineTrimW cw l ≤ indentOf (findWords line) + dw cw (trimSp w) := by
+  have hwords := findWords_splain cw line hp
+  unfold LW.wrap
+  simp only [LW.new, List.reverse_reverse]
+  cases hws : findWords line with
+  | nil =>
+    intro l hl
+    simp [wrapLoop, linesOf] at hl
+    subst hl
+    exact Or.inl (Nat.zero_le _)
+  | cons w0 rest =>
+    simp only
+    have hg := wrapLoop_goodW cw (w0 :: rest) (w0 :: rest)
+      ⟨hard, 0, some (if w0.all isWs = true then w0 else [])⟩ true []
+      (fun w hw => ⟨hwords w (by rw [hws]; exact hw), hw⟩)
+      (by intro e he; simp at he)
+      (by
+        intro c hc
+        simp only [Option.some.injEq] at hc
+        subst hc
+        have hw0 := hwords w0 (by rw [hws]; exact List.mem_cons_self)
+        split
+        · next hall =>
+          refine ⟨hw0, ?_⟩
+          rw [List.all_eq_true] at hall ⊢
+          intro x hx
+          have := (hw0 x hx).2.1 (hall x hx)
+          simp [this]
+        · exact ⟨fun x hx => by simp at hx, by simp⟩)
+      (by intro _; exact ⟨rfl, rfl⟩)
+      (by intro h; simp at h)
+      (by
+        intro l hl
+        simp [linesOf] at hl
+        subst hl
+        exact Or.inl (Nat.zero_le _))
+    intro l hl
+    have := hg l hl
+    simp only [carryLen, Option.getD_some, indentOf] at this ⊢
+    rcases this with h | ⟨w, hw, h⟩
+    · exact Or.inl h
+    · refine Or.inr ⟨w, hw, ?_⟩
+      split at h
+      · next hall => simp only [hall, ↓reduceIte]; exact h
+      · next hall => simp only [hall, Bool.false_eq_true, ↓reduceIte] ; simpa using h
+
+/-- non-vacuity: "世界 bb 世" with two-column ideographs at width 6: lines of 4 and 5 columns -/
+example : (linesOf ((LW.new 6).wrap (fun c => if c == '世' || c == '界' then 2 else 1)
+    (findWords "世界 bb 世".toList)).2.reverse).map (lineTrimW (fun c => if c == '世' || c == '界' then 2 else 1)) = [5, 4] := by decide
+example : SPlain (fun c => if c == '世' || c == '界' then 2 else 1) "世界 bb 世".toList := by unfold SPlain; decide
 
 end Clap.C20
